@@ -517,7 +517,13 @@ class Fuzzer:
         cores = j['cores_mcpu'] if j else 1000
         res = [{'name': 'compute/n1-preemptible/1', 'quantity': cores}, {'name': 'memory/n1-preemptible/1', 'quantity': cores * 4},
                {'name': 'compute/n1-preemptible/2', 'quantity': 7}]
-        return res[: self.rng.randint(1, 3)]
+        res = res[: self.rng.randint(1, 3)]
+        if self.rng.random() < 0.3:
+            # a later registration of the same attempt may name other quantities (the driver's estimate at `creating` vs the
+            # worker's own report, extra storage summed into one resource name): the first registration is the one that counts
+            for r in res:
+                r['quantity'] = r['quantity'] * self.rng.choice([1, 2, 3]) + self.rng.choice([0, 0, 1])
+        return res
 
     async def op_job_started(self):
         a = self._pick_attempt()
